@@ -21,7 +21,7 @@ RULE = ("Hypothesis-generated texts / byte strings / cut points / charsets / chu
         "charset, else ISO-8859-1, decides); file and stream contents also given a text type and read as_text() with "
         "characters straddling 4096- and 1024-byte chunk boundaries; a second pass over a lazy stream content after the "
         "stream was refilled and repositioned, == evaluated before and after a source change, unseekable streams where no "
-        "seek is requested, seek_whence without seek_offset, buffer_now as 0/1, files replaced (new inode) between passes, two "
+        "seek is requested, seek_whence without seek_offset, files replaced (new inode) between passes, two "
         "live / one abandoned iterator over a lazy file content, default type of content_from_file / attach_file, details "
         "gathered under their own names when nothing collides, parameter values differing in letter case only; two small "
         "exhaustive grids (stream_file_grid, undeclared_charset_grid) repeat the rare corners at every seed. Non-trivial: a cut inside a "
@@ -51,6 +51,22 @@ ASSUMPTIONS = [
     "gather_details keeps a detail's name when no source name is present in the target (the disambiguated names of "
     "colliding details are not modelled; their bytes are compared as a pool)",
     "as_text() of file/stream data in BOM-carrying or stateful charsets is checked only for reads from offset 0 of real text",
+    "the instrumented stream follows the io contract: only a sized read may come back short; read() / read(-1) / read(None) / "
+    "readall() return everything up to EOF (an implementation that reads to EOF in one call and slices is admitted)",
+    "buffer_now is passed as True or False only ('both buffer_now values'); the 0 / 1 spellings are not generated any more "
+    "(the spec key bn_int is kept for old replays and has no effect)",
+    "json_content's input is anything json.dumps accepts, including str leaves with unpaired (high) surrogates: they have to "
+    "round-trip through the UTF-8 bytes, which in practice requires \\uXXXX escapes for them (seeded change C16-r3-3, "
+    "ensure_ascii=False, is reported as a crash on exactly these); the statement's 'texts' for text_content exclude surrogates",
+    "an undecodable text content raises UnicodeError from iter_text() itself, from stepping its iterator or from as_text(); "
+    "when it is raised is not compared",
+    "text_content(bytes) is refused with TypeError or ValueError (the project's own tests expect TypeError); the type of "
+    "text_content and the default type of content_from_file / content_from_stream / attach_file is text/plain with a charset "
+    "that names UTF-8 under any spelling (codecs.lookup), not necessarily the UTF8_TEXT object or the spelling 'utf8'",
+    "lazy file contents are made while the file exists with other bytes; whether a missing path is tolerated at construction "
+    "is not examined ('reading lazily' is not 'no stat'), an eager read shows as wrong bytes",
+    "the object handed to attach_file offers addDetail and getDetails; ContentType.parameters may be a read-only mapping "
+    "(the caller-modifies-a-parse-result clause is then skipped)",
 ]
 
 TEXT = st.text(st.characters(blacklist_categories=("Cs",)), max_size=40)
@@ -108,7 +124,8 @@ def run_bytes(spec):
     def reader():
         calls.append(1)
         return iter(list(chunks))
-    r = content_from_reader(reader, _ct(spec["ct_a"]), int(spec["buffer_now"]) if spec.get("bn_int") else spec["buffer_now"])
+    # (spec["bn_int"] once passed buffer_now as 0 / 1; the documented values are True and False, so it no longer does)
+    r = content_from_reader(reader, _ct(spec["ct_a"]), bool(spec["buffer_now"]))
     if spec["buffer_now"]:
         if len(calls) != 1:
             vs.append(V("lazy", "reader-buffer_now", "reader called %d times at construction" % len(calls)))
@@ -167,9 +184,17 @@ JSONABLE = st.recursive(
     max_leaves=12)
 
 
+def _is_utf8_text(ct):
+    """text/plain declared as UTF-8, however the charset is spelled (utf8, UTF-8 ...) and whichever object it is."""
+    try:
+        return (ct.type, ct.subtype) == ("text", "plain") and codecs.lookup(ct.parameters["charset"]).name == "utf-8"
+    except (AttributeError, KeyError, LookupError, TypeError):
+        return False
+
+
 def run_text_rt(spec):
     from testtools.content import text_content, json_content
-    from testtools.content_type import UTF8_TEXT, JSON
+    from testtools.content_type import JSON
     vs = []
     s = spec["text"] * spec.get("times", 1)
     c = text_content(s)
@@ -179,7 +204,7 @@ def run_text_rt(spec):
         vs.append(V("text-roundtrip", "bytes", "bytes are not the UTF-8 encoding"))
     if "".join(c.iter_text()) != s:
         vs.append(V("text-roundtrip", "iter_text", "iter_text differs"))
-    if c.content_type != UTF8_TEXT:
+    if not _is_utf8_text(c.content_type):
         vs.append(V("text-roundtrip", "type", "content type %r" % c.content_type))
     d = spec["data"]
     j = json_content(d)
@@ -201,7 +226,7 @@ def run_text_rt(spec):
     try:
         text_content(s.encode("utf8"))
         vs.append(V("text-roundtrip", "bytes-accepted", "text_content accepted bytes"))
-    except TypeError:
+    except (TypeError, ValueError):
         pass
     nt = any(ord(ch) > 0xFFFF or ch == "\x00" or 0x300 <= ord(ch) < 0x370 for ch in s)
     return Case(vs, nt, ["astral/nul/combining" if nt else "plain", "len>4096" if len(s) > 4096 else ("len>100" if len(s) > 100 else "short")], {"bytes": raw[:40]})
@@ -306,13 +331,15 @@ def run_decode(spec):
     except UnicodeError:
         want = UnicodeError
     if spec.get("abandon") is not None:
-        it = c.iter_text()
+        it = None
         try:
+            # (an implementation may decode when iter_text() is called: the error of undecodable bytes then comes here)
+            it = c.iter_text()
             for _ in range(spec["abandon"]):
                 next(it, None)
         except UnicodeError:
             pass
-        del it
+        it = None
     try:
         got = c.as_text()
     except UnicodeError:
@@ -414,7 +441,7 @@ def run_interleaved(spec):
 class LoggedStream(io.BytesIO):
     """BytesIO that logs every way of reading from it (read, read1, readinto, readline, iteration ...) and every
     seek, may legitimately return short reads (like a pipe, a socket or a raw stream: at most ``short`` bytes per
-    read when ``short`` is set) and may be unseekable (``seekable=False``: seek/tell raise, like a pipe).  The
+    *sized* read when ``short`` is set; a read without a size / with a negative size reads to EOF) and may be unseekable (``seekable=False``: seek/tell raise, like a pipe).  The
     harness itself moves and refills it through the ``h_*`` methods, which are neither logged nor refused."""
 
     def __init__(self, data, short=None, seekable=True):
@@ -424,9 +451,11 @@ class LoggedStream(io.BytesIO):
         self.can_seek = seekable
 
     def _n(self, n):
-        if self.short is not None and (n is None or n < 0 or n > self.short):
-            return self.short
-        return -1 if n is None else n
+        if n is None or n < 0:
+            return -1          # read() / read(-1) / read(None) / readall(): to EOF, as the io contract says
+        if self.short is not None and n > self.short:
+            return self.short  # only a sized read may come back short
+        return n
 
     def read(self, n=-1):
         self.ops.append(("read", n))
@@ -552,7 +581,7 @@ def s_stream_case(draw):
             "two_iterators": draw(st.booleans()), "fill_late": draw(st.booleans()),
             "via_attach_file": draw(st.booleans()),
             "default_chunk": draw(st.booleans()) and chunk_size == 4096,
-            # buffer_now given as 0 / 1 rather than False / True
+            # (was: buffer_now given as 0 / 1 rather than False / True; kept in the spec, without effect now)
             "bn_int": draw(st.booleans()),
             # a stream that cannot seek or tell (a pipe); only where no seek is requested
             "seekable": draw(st.sampled_from([True, True, False])) or offset is not None or kind != "stream",
@@ -659,6 +688,12 @@ class _Detailed:
     def addDetail(self, name, content):
         self.details[name] = content
 
+    def getDetails(self):
+        return self.details
+
+
+_EARLY = b"not yet:"       # what a file holds while a lazy content of it is being made
+
 
 def _decode_or_error(data, charset):
     try:
@@ -669,7 +704,7 @@ def _decode_or_error(data, charset):
 
 def run_stream(spec):
     from testtools.content import content_from_stream, content_from_file, attach_file
-    from testtools.content_type import ContentType, UTF8_TEXT
+    from testtools.content_type import ContentType
     vs = []
     data, cs = spec["data"], spec["chunk_size"]
     start = _model_start(len(data), spec["prepos"], spec["offset"], spec["whence"])
@@ -683,7 +718,7 @@ def run_stream(spec):
     elif spec.get("whence_alone"):
         kw["seek_whence"] = spec["whence"]
     buffer_now = spec["buffer_now"]
-    bn = int(buffer_now) if spec.get("bn_int") else buffer_now
+    bn = bool(buffer_now)      # always a real bool: spec["bn_int"] (0 / 1) is outside "both buffer_now values", see ASSUMPTIONS
     lazy = not buffer_now
     ct = ContentType("application", "octet-stream")
     tag = spec["kind"]
@@ -734,7 +769,7 @@ def run_stream(spec):
             if again != later[start2:]:
                 vs.append(V("stream-bytes", "stream-second-pass", "the stream was refilled with %r and left at %d; a second pass over the lazy content gives %r, want %r" % (later[:60], p2, again[:60], later[start2:][:60])))
         d = content_from_stream(LoggedStream(data))
-        if d.content_type != UTF8_TEXT:
+        if not _is_utf8_text(d.content_type):
             vs.append(V("default-type", "stream", "default content type is %r" % d.content_type))
     else:
         limit = _default_chunk_size(content_from_file) if spec["default_chunk"] else cs
@@ -745,9 +780,9 @@ def run_stream(spec):
             # the convenience wrapper hands chunk_size and buffer_now on positionally
             limit = _default_chunk_size(attach_file) if spec["default_chunk"] else cs
             holder = _Detailed()
-            if buffer_now:
-                with open(path, "wb") as f:
-                    f.write(data)
+            with open(path, "wb") as f:
+                # (read lazily: the file holds something else as yet - it exists, "lazily" is not "the path is not looked at")
+                f.write(data if buffer_now else _EARLY + spec["mutate"])
             attach_file(holder, path, "att", ct, limit, bn)
             with open(path, "wb") as f:
                 f.write(spec["mutate"] if buffer_now else data)
@@ -764,7 +799,10 @@ def run_stream(spec):
             if spec["mutate"] == b"":
                 os.unlink(path)
         else:
-            # lazily read: the file need not exist yet
+            # lazily read: the file holds something else as yet (it exists: a check of the path at construction is
+            # not a read)
+            with open(path, "wb") as f:
+                f.write(_EARLY + spec["mutate"])
             try:
                 c = content_from_file(path, ct, buffer_now=bn, **kw)
             except OSError as e:
@@ -777,14 +815,14 @@ def run_stream(spec):
             iters = spec.get("file_iters")
             if iters == "two":
                 # two iterators alive at once: each reads the file for itself
-                it1, it2 = c.iter_bytes(), c.iter_bytes()
+                it1, it2 = iter(c.iter_bytes()), iter(c.iter_bytes())     # (iter_bytes may hand out any iterable)
                 head = next(it1, b"")
                 two = b"".join(it2)
                 one = head + b"".join(it1)
                 if one != want or two != want:
                     vs.append(V("stream-bytes", "file-two-iterators", "two iterators over one lazy file content, advanced in turn, give %r and %r, want %r" % (one[:60], two[:60], want[:60])))
             elif iters == "abandon":
-                it3 = c.iter_bytes()
+                it3 = iter(c.iter_bytes())
                 next(it3, None)
                 del it3             # dropped half-way
             again = b"".join(c.iter_bytes())
@@ -812,7 +850,7 @@ def run_stream(spec):
         holder = _Detailed()
         attach_file(holder, dpath)
         attached = list(holder.details.values())
-        if dflt.content_type != UTF8_TEXT or len(attached) != 1 or attached[0].content_type != UTF8_TEXT:
+        if not _is_utf8_text(dflt.content_type) or len(attached) != 1 or not _is_utf8_text(attached[0].content_type):
             vs.append(V("default-type", "file", "default content type is %r, attach_file registered %r" % (dflt.content_type, holder.details)))
         elif b"".join(dflt.iter_bytes()) != data or b"".join(attached[0].iter_bytes()) != data:
             vs.append(V("stream-bytes", "file-defaults", "content_from_file(path) / attach_file(obj, path) do not yield the file's bytes"))
@@ -928,7 +966,10 @@ def run_ct(spec):
     other = ContentType(spec["type"], spec["subtype"] + "x", dict(spec["params"]))
     if ct == other:
         vs.append(V("ct-roundtrip", "eq-subtype", "content types with different subtypes compare equal"))
-    back.parameters["x-added-by-caller"] = "1"          # what a caller does with one parse result ...
+    try:
+        back.parameters["x-added-by-caller"] = "1"      # what a caller does with one parse result ...
+    except TypeError:
+        pass                                             # (a read-only mapping: nothing a caller could do to it)
     again = _make_content_type(text)
     if again != ct:                                      # ... must not show up in the next one
         vs.append(V("ct-roundtrip", "parse-results-shared", "a second parse of %r gives %r after the first result was modified" % (text, again.parameters)))
@@ -1012,7 +1053,7 @@ def subchecks(tier):
         Sub("stream_file", run_stream, s_stream_case(), 2000 if q else 200000),
         Sub("stream_file_grid", run_stream, enum=_enum_stream, enum_complete=True,
             note="corners of content_from_stream/file: characters straddling 4096/1024-byte chunk boundaries decoded from a stream "
-                 "or file, offset 0 on a pre-positioned stream, whence without offset, unseekable streams, buffer_now as 0/1, "
+                 "or file, offset 0 on a pre-positioned stream, whence without offset, unseekable streams, "
                  "replaced files and concurrent / abandoned file iterators"),
         Sub("undeclared_charset_grid", run_decode, enum=_enum_decode, enum_complete=True,
             note="no / single-byte declared charset over bytes that carry a BOM or are valid UTF-8, with and without other "
